@@ -191,4 +191,11 @@ pub fn shim_report(r: Result<(), std::io::Error>, fmt: &str) {
     r.map_err(|err| eprintln!("{} {:?}", fmt, err)).ok();
 }
 
+/// R2 shim for `std::io::Error::new(std::io::ErrorKind::InvalidData, <msg>)` (generic `Into<Box<dyn Error>>`
+/// argument is outside Verus' reach); allocation of an error value, never panics
+#[verifier::external_body]
+pub fn shim_io_error_invalid_data(msg: &'static str) -> std::io::Error {
+    std::io::Error::new(std::io::ErrorKind::InvalidData, msg)
+}
+
 } // verus!
